@@ -1,5 +1,6 @@
 """C10 — replica swaps use the exact Metropolis probability and swap only configurations."""
 from checks import pure_fns
+from checks import api_cov
 LEAN_TARGETS = ["QmcProps.C10", "drv_c10"]
 BINS = ["c10"]
 
@@ -36,6 +37,7 @@ THEOREMS = [
     "parallel_step_eq_serial_reachable",
     "old_canSwap_accepts_different_graphs",
     "canSwap_same_shape",
+    "swap_overflow_witness",
 ]
 
 RULE = ("ising/generic: ladders of 0..8 real replicas (QmcIsingGraph / Qmc, 2-4 spins, random graphs with multi-edges, dyadic "
@@ -59,7 +61,12 @@ def main(ck):
         for mode in ["ising", "generic", "pairs", "mismatch", "grow"]:
             cases = ck.harness("c10", [mode])
             ck.correspond(mode, "drv_c10", cases)
+        # known finding F28 (fixed witness, independent of VERIF_SEED): a freshly added replica in another energy unit next to a
+        # hot replica -- exact ratio >= 1 (model, log oracle, Lean: swap_overflow_witness), the code's bisected probability is 0;
+        # plus the control pair at a common unit, where code and model agree
+        ck.correspond("swap-overflow-witness", "drv_c10", ck.harness("c10", ["overflow-witness"]))
         ck.extra_trusted.append("Spy delegation wrapper in harness/src/bin/c10.rs (each case is re-run on an unwrapped container and must end in the same state)")
         ck.assumptions.append("swapProb_exact: both strings legal for their own Hamiltonian (C07), beta > 0, Hamiltonians well formed (nvars derived from the edges) and accepted by can_swap_managers; equal cutoffs are established by the step itself (cutoffs_equal_after_step)")
         ck.assumptions.append("probability = threshold/2^52 of a uniform 52-bit grid draw (accept_grid); f64 rounding of division/powi absorbed by the 1e-9 tolerance")
+    api_cov.run(ck, "c10")   # otherwise unexercised public API, model-free oracles of this property
     return ck.finish(RULE)
